@@ -110,6 +110,13 @@ Definition new_oracle (data : list (bytes * newdata)) (order : list bytes) (enum
     (* a column order that names a column twice cannot hold exactly the supplied columns; a declared value set
        listing a value twice is not a set: both must be rejected *)
     if negb (nodup_bytes order') then 2
+    (* an illegal column name, and an enum declaration that names no column holding string data (unknown column or
+       data of another type), are invalid input whatever else was passed: no frame may be returned (C08, C10) *)
+    else if negb (forallb (fun kv => check_name (fst kv)) data) then 2
+    else if existsb (fun kv => match assocb (fst kv) data with
+                               | Some d => negb (is_string_data d)
+                               | None => true
+                               end) enums then 2
     else if existsb (fun kv => match assocb (fst kv) data with
                                | Some d => is_string_data d && negb (nodup_bytes (snd kv))
                                | None => false
